@@ -10,6 +10,7 @@ open SamVerif.C01
 #print axioms seqAssign_eq_par_counterexample
 #print axioms tailrec_equiv_par
 #print axioms tailrec_equiv_seq
+#print axioms tailrec_stmt_equiv
 #print axioms swap_regression
 #print axioms meet_comm
 #print axioms meet_assoc
@@ -19,3 +20,5 @@ open SamVerif.C01
 #print axioms mem_selfCallReads
 #print axioms cpe_unused_preserves
 #print axioms cpe_const_preserves
+#print axioms cpe_prog_unused_preserves
+#print axioms cpe_prog_const_preserves
